@@ -27,7 +27,7 @@ import (
 // responsive peers are real sockets over a real transport.
 
 type spec struct {
-	Kind   string `json:"kind"` // matrix | dl-block | dl-ready | nodl | be | fnp-none | fnp-leave
+	Kind   string `json:"kind"` // matrix | dl-block | dl-ready | nodl | be | multi | fnp-none | fnp-leave
 	Proto  string `json:"proto"`
 	Obj    string `json:"obj"`            // sock | ctx
 	Op     string `json:"op,omitempty"`   // send | recv
@@ -36,7 +36,7 @@ type spec struct {
 	NPipes int    `json:"npipes,omitempty"`
 	Q      int    `json:"q,omitempty"`     // WriteQLen (send) / ReadQLen (recv); never 0
 	State  string `json:"state,omitempty"` // send queue state: empty | partial | full
-	K      int    `json:"k,omitempty"`     // recv: messages made available
+	K      int    `json:"k,omitempty"`     // recv: messages made available; multi: number of concurrent callers
 	DUs    int64  `json:"d_us,omitempty"`  // deadline in microseconds (0 = none)
 	FNP    bool   `json:"fnp,omitempty"`   // fail-no-peers also set
 	WithDL bool   `json:"with_dl,omitempty"`
@@ -102,10 +102,12 @@ var qChoices = []int{1, 2, 4, 8}
 // genCases: the list is a function of (seed, tier) only.
 func genCases(rnd *rand.Rand, thorough bool) []mon.CaseSpec {
 	var cases []mon.CaseSpec
-	add := func(s spec) { cases = append(cases, mon.CaseSpec{Name: s.Kind + "/" + s.Proto + "/" + s.Obj + "/" + s.Op, Spec: s}) }
-	reps := 1
+	add := func(s spec) {
+		cases = append(cases, mon.CaseSpec{Name: s.Kind + "/" + s.Proto + "/" + s.Obj + "/" + s.Op, Spec: s})
+	}
+	reps := 6
 	if thorough {
-		reps = 10
+		reps = 80
 	}
 	trs := []string{"inproc"}
 	if thorough {
@@ -268,6 +270,25 @@ func genCases(rnd *rand.Rand, thorough bool) []mon.CaseSpec {
 				}
 			}
 		}
+		// ---- several blocked callers at once (own deadline per context)
+		for _, o := range recvObjs() {
+			if o.obj == "sock" && table[o.proto].hasCtx {
+				continue // one caller per object on the context-bearing cooked sockets
+			}
+			pr := []string{"none", "vt"}[rnd.Intn(2)]
+			if o.proto == "req" {
+				pr = "vt" // a request must have been transmitted
+			}
+			add(spec{Kind: "multi", Proto: o.proto, Obj: o.obj, Op: "recv", Peer: pr, NPipes: 1, Q: pickQ(1), K: 2 + rnd.Intn(3), DUs: ds[rnd.Intn(2)]})
+		}
+		for _, o := range sendObjs() {
+			fam := sendFam[o.proto]
+			if fam == "reply" || (o.obj == "sock" && table[o.proto].hasCtx) {
+				continue
+			}
+			pr := []string{"none", "vt"}[rnd.Intn(2)]
+			add(spec{Kind: "multi", Proto: o.proto, Obj: o.obj, Op: "send", Peer: pr, NPipes: 1, Q: pickQ(1), State: "full", K: 2 + rnd.Intn(3), DUs: ds[rnd.Intn(2)]})
+		}
 		// ---- fail-no-peers
 		for _, o := range fnpObjs() {
 			ops := []string{"send"}
@@ -305,6 +326,8 @@ func runCase(c *mon.Case, sp spec) {
 		runNoDeadline(c, sp)
 	case "be":
 		runBestEffort(c, sp)
+	case "multi":
+		runMulti(c, sp)
 	case "fnp-none":
 		runFNPNone(c, sp)
 	case "fnp-leave":
